@@ -8,6 +8,8 @@ import pipeline
 import cc
 
 ASSUME = [
+    "in every third execution the caller of a plain command attaches its callbacks only after the line that completes the reply has "
+    "been processed (submit first, look at the outcome later)",
     "Twisted's LineOnlyReceiver splits the byte stream into lines; the model is line-level and the harness "
     "multiplies every script by byte segmentations (whole, byte-at-a-time, single cuts incl. between CR and LF, "
     "next-line prefix delivered early, whole reply coalesced, random)",
@@ -141,7 +143,8 @@ def run(pid, tier, seed):
         reps = 1 if tier == "quick" else 2
         for j in range(reps):
             seg = segs[(i + j * 3 + seed) % len(segs)]
-            t = cc.replay(s, seg, random.Random(seed * 1000003 + i))
+            # in every third execution the caller of a plain command looks at its outcome only after the reply is in
+            t = cc.replay(s, seg, random.Random(seed * 1000003 + i), late_attach=(i % 3 == 1))
             traces.append(t)
             meta.append((src, seg))
         h = common.digest(s)
@@ -199,7 +202,7 @@ def verdict(pid, rep, traces, meta, res, runs):
             rep.violation("real execution is not a behaviour of ControlConn: step %d (%s) of a %s script under segmentation %s; "
                           "observed %s" % (k + 1, step and step["a"], meta[i][0], traces[i]["seg"],
                                            json.dumps(step and step["obs"])[:400]),
-                          dict(property=pid, module="ControlConn", seg=traces[i]["seg"], script=strip(traces[i]),
+                          dict(property=pid, module="ControlConn", seg=traces[i]["seg"], late=traces[i].get("late", False), script=strip(traces[i]),
                                matched=k, failing_step=step, errors=traces[i].get("errors")))
             reported += 1
     rep.cov["rejected_traces"] = len(bad)
@@ -207,7 +210,7 @@ def verdict(pid, rep, traces, meta, res, runs):
 
 def replay(pid, path):
     p = json.load(open(path))
-    t = cc.replay(p["script"], tuple(p["seg"]), random.Random(0))
+    t = cc.replay(p["script"], tuple(p["seg"]), random.Random(0), late_attach=p.get("late", False))
     res, r = tlc.validate_traces("ControlConnTrace", "ControlConnTrace.cfg", [t])
     x = res[0]
     print("replay: matched %d of %d steps" % (x["matched"], x["wanted"]))
